@@ -28,8 +28,18 @@ Record case := mkcase {
                                        the tree stored as "extra" ([] = none) *)
   k_commits : list (str * str);     (* the text after "author " and after "committer " of every commit written or fetched *)
   k_identcfg : list (str * str);    (* user.*, author.*, committer.* of the host's configuration: key, value *)
-  k_peercfg : list (str * str)      (* the same for the repository of the second user *)
+  k_peercfg : list (str * str);     (* the same for the repository of the second user *)
+  k_breaks : list (snap * snap);    (* per command the host's user ran with stock git during the session (git pack-refs, git gc,
+                                       git fetch): what stock git shows just before and just after it; not git-bug's doing *)
+  k_broken : list str;              (* the references git for-each-ref reported as broken after some action of the session *)
+  k_maint : bool                    (* stock git completed every one of those commands of the host's user *)
 }.
+
+(* the stretches of the session in which only git-bug acted: from the start to the first command of the host's user,
+   between two of them, from the last one to the end *)
+Fixpoint segs (b : snap) (brs : list (snap * snap)) (a : snap) : list (snap * snap) :=
+  match brs with [] => [(b, a)] | (pre, post) :: t => (b, pre) :: segs post t a end.
+Definition segments (c : case) : list (snap * snap) := segs (k_before c) (k_breaks c) (k_after c).
 
 Definition loc_of (name : str) : list str := match resolve name with Some l => l | None => [name] end.
 
@@ -50,11 +60,15 @@ Definition fview_eqb (a b : fview) : bool :=
   list_eqb pn_eqb (f_files a) (f_files b).
 
 (* ---- the property on the implementation's observations ---- *)
-Definition foreign_same (c : case) : bool := fview_eqb (foreign (repo_of (k_before c))) (foreign (repo_of (k_after c))).
+Definition foreign_same (c : case) : bool :=
+  forallb (fun sg => fview_eqb (foreign (repo_of (fst sg))) (foreign (repo_of (snd sg)))) (segments c).
+(* no reference is ever left in a state stock git calls broken; stock git can pack, collect and fetch *)
+Definition refs_valid (c : case) : bool := match k_broken c with [] => true | _ => false end.
 (* every author / committer line is one git fsck accepts *)
 Definition idents_ok (c : case) : bool := forallb (fun p => fsck_identb (fst p) && fsck_identb (snd p)) (k_commits c).
 Definition C15_ok (c : case) : bool :=
-  foreign_same c && forallb git_tree_okb (k_trees c) && idents_ok c && k_fsck c && k_clone c && k_push c.
+  foreign_same c && forallb git_tree_okb (k_trees c) && idents_ok c && k_fsck c && k_clone c && k_push c &&
+  refs_valid c && k_maint c.
 
 Fixpoint index_filter {A} (f : A -> bool) (i : nat) (l : list A) : list nat :=
   match l with [] => [] | x :: t => if f x then index_filter f (S i) t else i :: index_filter f (S i) t end.
@@ -82,24 +96,27 @@ Definition values_of {K} (eqb : K -> K -> bool) (k : K) (l : list (K * N)) : lis
 Definition changed {K} (eqb : K -> K -> bool) (a b : list (K * N)) : list K :=
   filter (fun k => negb (list_eqb N.eqb (values_of eqb k a) (values_of eqb k b))) (map fst a ++ map fst b).
 
+(* per stretch of the session; the targets are those of all the actions of the session *)
 Definition untargeted_refs (c : case) : list (list str) :=
   let ps := List.concat (map compile (k_actions c)) in
   let ts := ref_targets ps in
-  filter (fun l => negb (existsb (path_eqb l) ts)) (changed path_eqb (r_refs (repo_of (k_before c))) (r_refs (repo_of (k_after c)))).
+  flat_map (fun sg => filter (fun l => negb (existsb (path_eqb l) ts))
+                        (changed path_eqb (r_refs (repo_of (fst sg))) (r_refs (repo_of (snd sg))))) (segments c).
 Definition untargeted_cfg (c : case) : list str :=
   let ps := List.concat (map compile (k_actions c)) in
   let ts := cfg_targets ps in
-  filter (fun k => negb (existsb (fun t : bool * str => if fst t then cfg_below (snd t) k else str_eqb (snd t) k) ts))
-         (changed str_eqb (s_cfg_ (k_before c)) (s_cfg_ (k_after c))).
+  flat_map (fun sg => filter (fun k => negb (existsb (fun t : bool * str => if fst t then cfg_below (snd t) k else str_eqb (snd t) k) ts))
+                        (changed str_eqb (s_cfg_ (fst sg)) (s_cfg_ (snd sg)))) (segments c).
 Definition untargeted_files (c : case) : list (list str) :=
   let ps := List.concat (map compile (k_actions c)) in
   let ts := file_targets ps in
-  filter (fun l => negb (existsb (fun t => prefixb str_eqb t l) ts)) (changed path_eqb (r_files (repo_of (k_before c))) (r_files (repo_of (k_after c)))).
+  flat_map (fun sg => filter (fun l => negb (existsb (fun t => prefixb str_eqb t l) ts))
+                        (changed path_eqb (r_files (repo_of (fst sg))) (r_files (repo_of (snd sg))))) (segments c).
 
 Definition rest_same (c : case) : bool :=
-  let a := k_before c in let b := k_after c in
-  str_eqb (s_head_ a) (s_head_ b) && N.eqb (s_index_ a) (s_index_ b) && list_eqb sn_eqb (s_wt_ a) (s_wt_ b) &&
-  list_eqb N.eqb (s_aux_ a) (s_aux_ b).
+  forallb (fun sg : snap * snap => let a := fst sg in let b := snd sg in
+    str_eqb (s_head_ a) (s_head_ b) && N.eqb (s_index_ a) (s_index_ b) && list_eqb sn_eqb (s_wt_ a) (s_wt_ b) &&
+    list_eqb N.eqb (s_aux_ a) (s_aux_ b)) (segments c).
 
 (* StoreTree: the stored order of every tree is the model's order of the same entries *)
 Definition trees_as_model (c : case) : bool := forallb (fun es => list_eqb entry_eqb (store_tree es) es) (k_trees c).
@@ -115,13 +132,18 @@ Definition commit_as_model (cfg : list (str * str)) (p : str * str) : bool :=
 Definition idents_as_model (c : case) : bool :=
   forallb (fun p => commit_as_model (k_identcfg c) p || commit_as_model (k_peercfg c) p) (k_commits c).
 
+(* the reference store: whatever git-bug's writes and fetches and stock git's packing do in whatever order, no
+   reference file is left without a value (Frame.ref_session_no_broken): git reports no broken reference *)
+Definition refs_as_model (c : case) : bool := refs_valid c.
+
 Definition agrees (c : case) : bool :=
   match untargeted_refs c, untargeted_cfg c, untargeted_files c with
-  | [], [], [] => rest_same c && trees_as_model c && extras_as_model c && idents_as_model c
+  | [], [], [] => rest_same c && trees_as_model c && extras_as_model c && idents_as_model c && refs_as_model c
   | _, _, _ => false
   end.
 Definition mismatches (cs : list case) : list nat := index_filter agrees 0 cs.
 
 Definition explain (c : case) :=
   (untargeted_refs c, untargeted_cfg c, untargeted_files c, (rest_same c, trees_as_model c, extras_as_model c, idents_as_model c),
-   (foreign_same c, forallb git_tree_okb (k_trees c), idents_ok c, (k_fsck c, k_clone c, k_push c))).
+   (foreign_same c, forallb git_tree_okb (k_trees c), idents_ok c, (k_fsck c, k_clone c, k_push c)),
+   (List.length (segments c), k_broken c, k_maint c)).
